@@ -1,7 +1,7 @@
 // TRUSTED MIRROR of `mahf::problems::Problem` (src/problems/mod.rs): only the associated types that the
 // verified functions mention.  Real bounds: Encoding: Any + Clone + PartialEq + Send,
 // Objective: Debug + Clone + Eq + PartialOrd + Send.
-pub trait Problem: Sized {
+pub trait Problem: Sized + 'static {
     type Encoding: Clone + PartialEq;
     type Objective: Clone + PartialEq;
 }
